@@ -50,6 +50,16 @@ def gen_dataset(rng, force=None):
             if k.startswith("cat_"):
                 cs["ncat"] = rng.choice([1, 2, 5])
             extra.append(cs)
+    if n > 0 and nrg > 0 and rng.random() < 0.45:
+        # columns whose pandas dtype is decided from the NULL STATISTICS of the row groups (python ints / bools in an object
+        # column: no dtype in the pandas metadata), with the nulls confined to some row groups (possibly none, never all when
+        # there are several): a partial read that avoids them must still have the dtype of the full read
+        for k in rng.sample(["oint", "obool"], rng.choice([1, 2])):
+            m = len(sizes)
+            nullrgs = sorted(rng.sample(range(m), rng.choice([0, 1, 1, 1, 2]) if m > 1 else rng.choice([0, 1])))
+            if len(nullrgs) == m and m > 1:
+                nullrgs = nullrgs[:-1]
+            extra.append({"name": "x%d_%s" % (len(extra), k), "kind": k, "nulls": "rgs", "nullrgs": nullrgs, "seed": rng.randrange(1 << 30)})
     if force.get("rich") and n > 0:
         # every dtype family whose read depends on handle state (time zones, categories, nullable/masked, text, units)
         extra = [{"name": "x0_dttz_us", "kind": "dttz_us", "nulls": "some", "seed": 11, "tz": "Europe/Berlin"},
@@ -78,7 +88,7 @@ def gen_dataset(rng, force=None):
         how = rng.choice(["dir", "dir", "_metadata"])
     return {"sizes": sizes, "scheme": scheme, "part": part, "extra": extra, "index": index, "fab": fab, "open": how,
             "mod": [rng.choice([2, 3]), rng.choice([2, 3])], "tz": rng.choice(["US/Pacific", "Europe/Berlin", "UTC", "Asia/Kolkata"]),
-            "tunit": rng.choice(["us", "ns", "ms"]),
+            "tunit": rng.choice(["us", "ns", "ms"]), "pn": rng.random() < 0.8,     # pandas_nulls on / off
             # several data pages per column chunk (offsets inside a row group's slice of the views), data page v1 / v2
             "page_size": rng.choice([None, None, 64, 200]), "dpv": rng.choice([1, 1, 2])}
 
@@ -95,6 +105,15 @@ def dataset_frame(ds):
     tvals = ((T_BASE + np.arange(n, dtype="int64")) * per).view("M8[%s]" % unit)
     df["t"] = pd.Series(tvals).dt.tz_localize("UTC").dt.tz_convert(ds.get("tz", "US/Pacific"))
     for cs in ds["extra"]:
+        if cs["kind"] in ("oint", "obool"):
+            vals = [(int(i) * 7 - 3 + (2**53 + 1 if i == n - 1 else 0)) if cs["kind"] == "oint" else bool((i // 2) % 2) for i in range(n)]
+            pos = 0
+            for j, sz in enumerate(ds["sizes"]):
+                if j in cs.get("nullrgs", ()) and sz:
+                    vals[pos + (sz - 1 if cs["kind"] == "obool" else 0)] = None
+                pos += sz
+            df[cs["name"]] = pd.Series(vals, dtype="object")
+            continue
         df[cs["name"]] = F.col_values(cs, n)
     m1, m2 = ds["mod"]
     if "p" in ds["part"]:
@@ -170,11 +189,12 @@ def build_dataset(ds, root):
 
 def open_dataset(ds, path):
     import fastparquet
+    kw = {"pandas_nulls": bool(ds.get("pn", True))}
     if ds["open"] == "filelike":
-        return fastparquet.ParquetFile(open(path, "rb"))
+        return fastparquet.ParquetFile(open(path, "rb"), **kw)
     if ds["open"] == "_metadata":
-        return fastparquet.ParquetFile(os.path.join(path, "_metadata"))
-    return fastparquet.ParquetFile(path)
+        return fastparquet.ParquetFile(os.path.join(path, "_metadata"), **kw)
+    return fastparquet.ParquetFile(path, **kw)
 
 
 # ---------------------------------------------------------------------------------------------
@@ -377,9 +397,9 @@ def frame_obs(df):
 
 
 def dtype_sig(dt):
-    """what of a dtype must agree between a partial read and the full read: kind, width, datetime unit and time zone.
-    Nullable extension types and their numpy counterparts are identified (which of the two is allocated depends on whether the
-    selected row groups' statistics show missing values); text types are identified."""
+    """what of a dtype must agree between a partial read and the full read: kind, width, NULLABILITY (Int64 vs int64, boolean vs
+    bool, float64 under pandas_nulls=False: a selection inherits the dtypes its parent derived from the null statistics of ALL
+    its row groups), datetime unit and time zone; text types are identified."""
     if isinstance(dt, pd.CategoricalDtype):
         return "category"
     if isinstance(dt, pd.DatetimeTZDtype):
@@ -387,10 +407,6 @@ def dtype_sig(dt):
     s = str(dt)
     if s in ("string", "str") or s.startswith("string"):
         return "object"
-    if s == "boolean":
-        return "bool"
-    if s[:3] in ("Int", "UIn", "Flo"):
-        return s.lower()
     return s
 
 
